@@ -373,6 +373,9 @@ impl<'a> CodeGenerator<'a> {
 
         let program = aiken_optimize_and_intern(self.new_program(term));
 
+        #[cfg(feature = "verif-hooks")]
+        uplc::verif::opt_final(&program);
+
         // This is very important to call here.
         // If this isn't done, re-using the same instance
         // of the generator will result in free unique errors
